@@ -28,14 +28,14 @@ _PROG = None
 TS = "typeshare"
 # %A0.. are attribute slots `#[PLAi(arg)]` with a symbolic path name
 TEMPLATES = {
-    "struct-named": "#[derive(Debug)]\n#[PLA9]\npub struct T { #[PLA0(skip)] #[serde(rename = \"x\")] pub a: u32, #[doc = \"d\"] #[PLA1(serialized_as = \"String\")] pub(crate) b: Vec<String>, #[typeshare(skip)] c: bool }",
+    "struct-named": "#[derive(Debug)]\n#[PLA9]\npub struct T { #[PLA0(skip)] #[serde(rename = \"x\")] pub a: u32, #[doc = \"d\"] #[PLA1(serialized_as = \"String\")] pub(crate) b: Vec<String>, #[typeshare(skip)] #[typeshare(redacted)] #[typeshare::skip] #[my::typeshare] c: bool }",
     "struct-generic": "#[serde(rename_all = \"camelCase\")]\npub struct T<'a, G: Clone, const N: usize> where G: Default { #[PLA0] pub a: &'a G, #[cfg(any())] #[PLA1(lang = \"x\")] #[PLA2] pub b: [u8; N] }",
     "struct-tuple": "pub struct T(#[PLA0] pub u32, #[PLA1(skip)] #[typeshare(skip)] String, #[serde(skip)] bool);",
     "struct-unit": "#[PLA0]\n#[typeshare(swift = \"Equatable\")]\npub struct T;",
     "enum-mixed": "#[derive(Clone)]\n#[serde(tag = \"t\", content = \"c\")]\npub enum T { #[PLA0(skip)] A, #[serde(rename = \"bee\")] #[PLA1] B(#[PLA2] u32), C { #[PLA3(serialized_as = \"String\")] x: u8, #[doc = \"y\"] y: u8 }, #[typeshare(skip)] D = 7 }",
     "enum-struct-variants": "pub enum T<G> { A { #[PLA0] a: G, #[PLA1] b: G }, #[PLA2] B { #[typeshare(skip)] #[PLA3] c: u8 }, C(#[typeshare(skip)] G, #[PLA4] u8) }",
     "enum-variant-then-fields": "pub enum T { #[typeshare(skip)] A { #[typeshare(skip)] a: u8, #[PLA0] b: u8 }, #[PLA1] B { #[PLA2] c: u8 }, C }",
-    "union": "#[repr(C)]\npub union T { #[PLA0] a: u32, #[doc = \"b\"] #[PLA1(skip)] b: f32, #[typeshare(skip)] c: u8 }",
+    "union": "#[repr(C)]\npub union T { #[PLA0] a: u32, #[doc = \"b\"] #[PLA1(skip)] b: f32, #[typeshare(skip)] #[typeshare_x] #[typeshare(skip)] c: u8 }",
 }
 NSLOTS = {k: max([int(x[0]) for x in v.split("PLA")[1:] if x[0] != "9"] + [-1]) + 1 for k, v in TEMPLATES.items()}
 
@@ -128,8 +128,10 @@ def case_strip(case):
     n = NSLOTS[tname]
     src = TEMPLATES[tname]
 
+    slot_len = preset or len(TS)
+
     def slot_chars(i):
-        return [z3.BitVec("a%d_%d" % (i, j), 32) for j in range(len(TS))]
+        return [z3.BitVec("a%d_%d" % (i, j), 32) for j in range(slot_len)]
 
     def entry(I):
         f = synast.parse_source(P, src)
@@ -205,12 +207,12 @@ def run(rep, tier, only=None):
     prog()
     t0 = time.time()
     selftest(rep)
-    cases = [(t, 0) for t in TEMPLATES]
-    rep.bounds = {"templates": sorted(TEMPLATES), "attribute slots": "up to 5 per template, each with a symbolic 9-character path name over [a-z_] (so `typeshare` and every near miss is a value), next to concrete serde / doc / cfg / derive / typeshare attributes",
+    cases = [(t, ln) for t in TEMPLATES for ln in ((9, 10) if tier == "quick" else (8, 9, 10, 11))]
+    rep.bounds = {"templates": sorted(TEMPLATES), "attribute slots": "up to 5 per template, each with a symbolic path name over [a-z_] of length 9 and 10 (thorough: 8..11), so `typeshare`, every near miss, and every name that merely starts or ends with it is a value, next to concrete serde / doc / cfg / derive / typeshare attributes",
                   "positions": "struct fields (named, tuple), enum variants, tuple- and struct-variant fields, union fields, item level"}
     rep.outside = ["the proc-macro wrapper `typeshare` (proc_macro::TokenStream exists only inside rustc): parse-or-pass-through is not executed",
                    "re-tokenisation of the DeriveInput by syn/quote, and what rustc and serde do with the result (compiles exactly when / same serialised form): the twin-program experiment of the property needs the compiler, not a solver",
-                   "attribute paths with several segments or of other lengths are concrete only (typeshare::x, serde, doc, cfg)"]
+                   "attribute paths with several segments are concrete only (typeshare::skip, my::typeshare, serde, doc, cfg)"]
     rep.assumptions = ["DeriveInput values are built from the real syn's Item AST of each template (same field content syn::parse::<DeriveInput> produces)",
                        "syn Path -> to_token_stream().to_string() model: single identifier prints as itself"]
     rep.harnesses["strip"] = len(cases)
@@ -252,10 +254,13 @@ fn main() {
     use std::io::BufRead;
     for line in std::io::stdin().lock().lines() {
         let line = line.unwrap();
-        let src: String = serde_json::from_str(&line).unwrap();
+        let req: (String, bool) = serde_json::from_str(&line).unwrap();
+        let (src, strip) = req;
         match syn::parse_str::<DeriveInput>(&src) {
             Ok(mut item) => {
-                strip_configuration_attribute(&mut item);
+                if strip {
+                    strip_configuration_attribute(&mut item);
+                }
                 println!("{}", serde_json::to_string(&item.to_token_stream().to_string()).unwrap());
             }
             Err(e) => println!("{}", serde_json::to_string(&format!("ERR {e}")).unwrap()),
@@ -277,10 +282,11 @@ fn main() {
     return os.path.join(tdir, "debug", "anndrv")
 
 
-def real_strip(srcs):
+def real_strip(srcs, strip=True):
+    """strip=True: the real strip_configuration_attribute; strip=False: only parse + print with the same syn/quote"""
     import json, subprocess
     exe = build_anndrv()
-    p = subprocess.run([exe], input="".join(json.dumps(s) + "\n" for s in srcs), capture_output=True, text=True, timeout=120)
+    p = subprocess.run([exe], input="".join(json.dumps([s, strip]) + "\n" for s in srcs), capture_output=True, text=True, timeout=120)
     outs = [json.loads(l) for l in p.stdout.splitlines()]
     if len(outs) != len(srcs):
         raise Inconclusive("annotation driver died: " + p.stderr[-500:])
@@ -316,7 +322,7 @@ def oracle_tokens(tname, names):
     if not sep:
         return src, None
     import re
-    body2 = re.sub(r"#\[typeshare\b", "#[zzsentinel", body)
+    body2 = re.sub(r"#\[typeshare(?=[\](])", "#[zzsentinel", body)   # exactly the path `typeshare` (not typeshare::x, typeshare_x)
     return src, head + sep + body2
 
 
@@ -326,9 +332,10 @@ def native(tname, v):
     if marked is None:
         outs = real_strip([src, src.replace("#[" + TS, "#[zzkeep")])
         return (False, "unit struct: nothing to strip", None)
-    got, ref = real_strip([src, marked])
+    got = real_strip([src])[0]
+    ref = real_strip([marked], strip=False)[0]
     import re
-    # reference: the marked item printed by the same syn, with the sentinel attributes deleted
+    # reference: the marked item printed (NOT stripped) by the same syn/quote, with the sentinel attributes deleted
     want = re.sub(r"# \[zzsentinel[^\]]*\] ", "", ref)
     payload = {"template": tname, "names": names}
     if got != want:
